@@ -284,7 +284,48 @@ def run_one(workload, prop, seed, idx, tier):
 # batches
 
 
+def in_child(fn):
+    """Run fn() in a forked child of this process and return its (pickled) result. The child starts from this process's
+    state and takes whatever the library remembers at module or class level with it when it exits: executions judged this
+    way cannot influence one another through state kept outside the objects of one run."""
+    import pickle
+
+    r, w = os.pipe()
+    pid = os.fork()
+    if pid == 0:
+        code = 0
+        try:
+            os.close(r)
+            try:
+                data = pickle.dumps(('ok', fn()))
+            except BaseException as e:  # noqa: BLE001
+                data = pickle.dumps(('exc', f'{type(e).__name__}: {e}', traceback.format_exc()))
+            with os.fdopen(w, 'wb') as f:
+                f.write(data)
+        except BaseException:  # noqa: BLE001
+            code = 3
+        finally:
+            os._exit(code)
+    os.close(w)
+    with os.fdopen(r, 'rb') as f:
+        data = f.read()
+    os.waitpid(pid, 0)
+    if not data:
+        raise HarnessError('a forked child of the simulator died without an answer')
+    res = pickle.loads(data)
+    if res[0] == 'exc':
+        raise HarnessError(f'exception in a forked child of the simulator: {res[1]}\n{res[2]}')
+    return res[1]
+
+
 def _chunk_worker(args):
+    """One chunk of consecutive run indexes = one forked child: the runs of a chunk execute in index order in a process of
+    their own, so whatever the library remembers between runs (module- or class-level state) is confined to the chunk and
+    the same for every execution of the batch, whichever pool process picked the chunk up."""
+    return in_child(lambda: _chunk_worker_inner(args))
+
+
+def _chunk_worker_inner(args):
     wl_name, prop, stratum, base_seed, tier, idxs, want_samples = args
     import faulthandler
 
@@ -335,7 +376,7 @@ def _chunk_worker(args):
         for v in ctx.violations:
             if v['signature'] not in seen_sigs:  # first (lowest idx) per signature per chunk
                 seen_sigs.add(v['signature'])
-                out['violations'].append(dict(v, schedule=schedule, seed=seed, idx=idx, stratum=stratum, workload=wl_name))
+                out['violations'].append(dict(v, schedule=schedule, seed=seed, idx=idx, stratum=stratum, workload=wl_name, chunk_lo=idxs[0]))
     return out
 
 
@@ -422,7 +463,47 @@ def fails_with(workload, schedule, prop, signature):
     return None
 
 
-def shrink(workload, schedule, prop, signature, budget=600):
+def fails_after(workload, history, schedule, prop, signature):
+    """fails_with() for `schedule` executed, in one fresh child process, after the schedules of `history` (earlier runs
+    whose only role is what the library may have remembered of them)."""
+
+    def go():
+        for h in history:
+            try:
+                run_schedule(workload, h, [prop])
+            except Exception:  # noqa: BLE001
+                pass
+        return fails_with(workload, schedule, prop, signature)
+
+    return in_child(go)
+
+
+def shrink_history(workload, history, schedule, prop, signature, budget=120):
+    """Drop as many earlier runs from `history` as can be dropped while `schedule` still fails after them."""
+    hist = list(history)
+    used = 0
+    n = 2
+    while hist and used < budget:
+        size = max(1, len(hist) // n)
+        removed = False
+        for lo in range(0, len(hist), size):
+            cand = hist[:lo] + hist[lo + size :]
+            used += 1
+            if fails_after(workload, cand, schedule, prop, signature) is not None:
+                hist = cand
+                n = max(n - 1, 2)
+                removed = True
+                break
+            if used >= budget:
+                break
+        if not removed:
+            if size == 1:
+                break
+            n = min(len(hist), n * 2)
+    return hist
+
+
+def shrink(workload, schedule, prop, signature, budget=600, history=()):
     """Return a smaller schedule that still fails with the same signature. `budget` bounds executions."""
     best = copy.deepcopy(schedule)
     used = [0]
@@ -431,7 +512,7 @@ def shrink(workload, schedule, prop, signature, budget=600):
         if used[0] >= budget:
             return False
         used[0] += 1
-        return fails_with(workload, cand, prop, signature) is not None
+        return fails_after(workload, list(history), cand, prop, signature) is not None
 
     keys = [k for k in getattr(workload, 'shrink_lists', ['ops']) if isinstance(best.get(k), list)]
     for key in keys:
@@ -486,7 +567,7 @@ def load_known():
         return json.load(f).get('findings', [])
 
 
-def write_replay(prop, v, schedule, base_seed, tier):
+def write_replay(prop, v, schedule, base_seed, tier, history=()):
     d = os.path.join(VERIF, 'replays')
     os.makedirs(d, exist_ok=True)
     sigh = hashlib.sha256(v['signature'].encode()).hexdigest()[:8]
@@ -505,6 +586,9 @@ def write_replay(prop, v, schedule, base_seed, tier):
                 'failed_at_step': v['step'],
                 'detail': v['detail'],
                 'schedule': schedule,
+                # earlier runs of the same process, executed first on replay: present only where the violation does not
+                # show on a fresh process (the library remembered something of them outside their own objects)
+                'history': list(history),
             },
             f,
             indent=1,
@@ -520,6 +604,11 @@ def replay_file(path, quiet=False):
     with open(path) as f:
         r = json.load(f)
     workload = workloads.get(r['workload'])
+    for h in r.get('history') or []:
+        try:
+            run_schedule(workload, h, [r['property']])
+        except Exception:  # noqa: BLE001
+            pass
     v = fails_with(workload, r['schedule'], r['property'], r['signature'])
     if v is None:
         return False, f"replay of {path}: signature {r['signature']} did NOT reproduce"
